@@ -15,14 +15,21 @@
                  VM with a heap of lib/BytecodeS.v: C01_simulation_set, C01_program_simulation_set)   PROVED
                  NOT proved: (i) the agreement of the reference store semantics CoreS.seval with
                  beval o assign_convert (the boxing pass itself; tied by the differential check only);
-                 (ii) SETLOCAL for assigned-but-never-captured locals (the model boxes them too).
+                 (ii) whole-program corollary for the SETLOCAL variant (only the general statement
+                 C01_simulation_setlocal is proved).
+           setlocal (refinement of set: an assigned local that no lambda of its scope captures stays in its
+                 stack slot, [LSetL] = SETLOCAL overwrites the slot and yields the old value; the source
+                 evaluator CoreL.leval threads the environment; premise [L.wf]: LSetL targets a slot of the
+                 current frame and let binders do not shadow visible locals, as after the engine's renaming
+                 pass; the frame's temporaries are untouched): C01_simulation_setlocal          PROVED
    Not covered by any theorem: MOVEREADLOCAL (last-usage moves), whole-program equivalence of the CALLGLOBAL
    peephole (only the step-level fusion lemmas C01_callglobal_fusion / _tail_fusion), the
    source-to-source passes in front of code generation; these are tied by the differential check only. *)
 From Coq Require Import String.
 From Coq Require Import ZArith List Bool Lia Arith.
 From SV Require Import lib.Core lib.CoreS lib.Bytecode lib.BytecodeS c01.Proofs_C01.
-From SV Require c01.Proofs_C01_set.
+From SV Require c01.Proofs_C01_set c01.Proofs_C01_setl.
+From SV Require Import lib.CoreL lib.BytecodeL.
 Import ListNotations.
 Open Scope list_scope.
 
@@ -224,6 +231,44 @@ Theorem C01_set_returns_old : forall n r g e st v st1 old,
   beval (S n) r (BSetG g e) st = Some (BVal old (mkB (b_store st1) ((g, v) :: b_glob st1))) /\
   Core.lookup g ((g, v) :: b_glob st1) = Some v.
 Proof. exact Proofs_C01_set.set_global_old. Qed.
+
+(* The SETLOCAL refinement: as C01_simulation_set for the language with in-place assignment of un-captured
+   locals.  The source environment r' after the evaluation and the frame's slots after the run are again
+   related ([R1 r' ce slots']), nothing but variable slots changed ([frame_ok]: operands already pushed and
+   other temporaries are untouched), [post] = returned to the caller (tail) / value pushed above slots'. *)
+Theorem C01_simulation_setlocal :
+  forall limit tco n r e st res, leval n r e st = Some res ->
+  forall ce tail C pc below slots caps fs MG H,
+    code_at C pc (L.compile tco ce (length slots) tail e) ->
+    length below = S.cur_sp fs -> Proofs_C01_setl.frame_caps fs caps ->
+    Proofs_C01_setl.R1 tco r ce slots caps -> Proofs_C01_setl.R2 e r ce ->
+    L.wf ce (length slots) e = true -> Proofs_C01_setl.ce_lt ce (length slots) -> Proofs_C01_setl.slots_inj ce ->
+    Proofs_C01_setl.Srel tco (l_store st) H -> Proofs_C01_setl.Grel tco (l_glob st) MG ->
+    length fs + n <= limit ->
+    Proofs_C01_setl.tail_ok tail C (pc + length (L.compile tco ce (length slots) tail e)) (length slots) fs ->
+    match res with
+    | LVal v r' st' => exists mv MG' H', Proofs_C01_setl.vrel tco v mv /\ Proofs_C01_setl.Srel tco (l_store st') H' /\
+        Proofs_C01_setl.Grel tco (l_glob st') MG' /\
+        Proofs_C01_setl.post limit tco tail r' ce caps (S.mkVM C pc (below ++ slots) fs MG H) C
+          (pc + length (L.compile tco ce (length slots) tail e)) below slots fs mv MG' H'
+    | LErr k => exists s', S.star limit (S.mkVM C pc (below ++ slots) fs MG H) s' /\ S.vm_step limit s' = S.SErr k
+    end.
+Proof. intros limit tco n. exact (Proofs_C01_setl.sim_all limit tco n). Qed.
+
+Open Scope string_scope.
+Example C01_example_setlocal :
+  let I z := SConst (KInt z) in let V := SVar in let A f a := SApp (SVar f) a in
+  (* (define (h a) (+ a (begin (set! a 10) a) a))  (h 1) = 21 : a stays in its slot, SETLOCAL *)
+  let ds := [("h", SLam ["a"] None (A "+" [V "a"; SSeq (SSet "a" (I 10%Z)) (V "a"); V "a"]))] in
+  let main := A "h" [I 1%Z] in
+  render_sresult (srun_program 100 ds main) = "OK I21"%string /\
+  render_lresult (lrun_program 100 (L.conv_defs ds) (assign_convertL main)) = "OK I21"%string /\
+  S.render_run (L.vm_program 100 true true 1000 (L.conv_defs ds) (assign_convertL main)) = "OK I21"%string /\
+  L.wf_program (L.conv_defs ds) (assign_convertL main) = true /\
+  In (SETLOCAL 0) (match L.compile_define true "h" (snd (hd ("", LConst KVoid) (L.conv_defs ds))) with
+                   | MKCLOSURE _ _ _ body :: _ => body | _ => [] end).
+Proof. vm_compute. repeat split. auto 20. Qed.
+Open Scope list_scope.
 
 (* non-vacuity of the assignment layer: a counter closure over an assigned captured local *)
 Example C01_example_set :
